@@ -284,8 +284,6 @@ pub fn pm1_impl(n: &Uint, b1: u64, b2: f64, verbosity: Verbosity) -> Option<(Vec
             // process exponent block
             if stop || 1 << expblock.leading_zeros() <= pow {
                 if !largeblocks {
-                    #[cfg(yamaquasi_verif)]
-                    verif_hooks::vh_rec_small(expblock);
                     g = exp_modn(&zn, &g, expblock);
                     gpows.push(zn.sub(&g, &zn.one()));
                     expblock = 1;
@@ -296,8 +294,6 @@ pub fn pm1_impl(n: &Uint, b1: u64, b2: f64, verbosity: Verbosity) -> Option<(Vec
             }
             // Keep room for the next 64-bit block: the product above must fit in 1024 bits.
             if stop || expblock_lg.bits() > 1024 - 64 {
-                #[cfg(yamaquasi_verif)]
-                verif_hooks::vh_rec_large(&expblock_lg);
                 g = exp_modn_large(&zn, &g, &expblock_lg);
                 gpows.push(zn.sub(&g, &zn.one()));
                 expblock_lg = U1024::ONE;
@@ -449,6 +445,8 @@ fn check_gcd_factors(
 }
 
 fn exp_modn(zn: &ZmodN, g: &MInt, exp: u64) -> MInt {
+    #[cfg(yamaquasi_verif)]
+    verif_hooks::vh_rec_small(exp);
     if exp == 0 {
         return zn.one();
     }
@@ -529,6 +527,8 @@ type LargeExpType = U1024;
 
 #[inline(never)]
 fn exp_modn_large(zn: &ZmodN, g: &MInt, exp: &LargeExpType) -> MInt {
+    #[cfg(yamaquasi_verif)]
+    verif_hooks::vh_rec_large(exp);
     // The optimal strategy for 1024-bit exponent is to use 6-bit blocks.
     // It requires 32 precomputed multiplications (exponents 1, 3, ... 63)
     // and at most 1024/6 multiplications in addition to squarings.
@@ -931,8 +931,9 @@ pub mod verif_hooks {
         (&b.factors, &b.larges)
     }
 
-    // Recorder of the stage-1 exponent blocks of `pm1_impl` (C17): every exponent passed to
-    // exp_modn (small = true) / exp_modn_large (small = false), in order, while recording is on.
+    // Recorder of the exponents of `pm1_impl` (C17): every exponent passed to exp_modn
+    // (small = true) / exp_modn_large (small = false), in order, while recording is on.
+    // The recording statements sit at the entry of these two functions.
     thread_local! {
         static VH_REC: std::cell::RefCell<Option<Vec<(bool, U1024)>>> = std::cell::RefCell::new(None);
     }
